@@ -1,7 +1,7 @@
 #!/bin/bash
 # usage: tools/soak.sh <first-seed> <last-seed> [props...]  — quick tier of each check on several
 # VERIF_SEEDs without touching evidence; prints one line per (prop, seed) and every non-zero exit.
-cd /verif || exit 2
+cd "$(dirname "$0")/.." || exit 2
 a=$1; b=$2; shift 2
 props=${*:-$(python3 -c "import json;print(' '.join(c['property_id'] for c in json.load(open('MANIFEST.json'))['checks']))")}
 bad=0
